@@ -241,3 +241,76 @@ class Renamed:
 
     def __setattr__(self, k, v):
         setattr(self._c, k, v)
+
+
+def variant_table(prog, body, crate="divan"):
+    """For a function of one enum value (`self`, by value or by reference) with no loops: the value returned for each
+    variant of the enum, {variant name: canonical return expression}, decided from the discriminant tests on every path
+    (lib.patheval). None when some path's result does not depend on the discriminant alone in a way we can read."""
+    from lib.patheval import PathEval
+    ty = (body.local_ty(1) or "").lstrip("&").strip()
+    if ty.startswith("mut "):
+        ty = ty[4:]
+    adt = prog.adt(ty, crate)
+    if not adt or adt["kind"] != "enum":
+        return None
+    names = [v["name"] for v in adt["variants"]]
+    sums = PathEval(body).run()
+    if not sums:
+        return None
+    table = {}
+    for s in sums:
+        possible = set(range(len(names)))
+        for a, pol in s.conds:
+            if a[0] != "discr":
+                return None  # a decision on something other than the variant
+            if "('arg', 1" not in str(a[1]) and "(1, " not in str(a[1]):
+                return None  # the variant tested is not self's
+            v = a[2]
+            if isinstance(v, str) and v.startswith("other:"):
+                listed = {int(x) for x in v[6:].split(",") if x}
+                sel = set(range(len(names))) - listed
+            else:
+                sel = {int(v)}
+            possible &= sel if pol else (set(range(len(names))) - sel)
+        for i in possible:
+            if i >= len(names):
+                return None
+            if names[i] in table and table[names[i]] != s.ret:
+                return None
+            table[names[i]] = s.ret
+    if set(table) != set(names):
+        return None
+    return table
+
+
+def snake(name):
+    import re
+    return re.sub(r"(?<=[a-z0-9])([A-Z])", r"_\1", name).lower()
+
+
+def variant_predicates(ctx, rule, prog, crate, enum_suffix, floor):
+    """Every `is_<variant>` predicate of the enum answers true for exactly the variant it is named after (the rules of
+    this property take these predicates at their word when they meet a call to one)."""
+    adt = prog.adt(enum_suffix, crate)
+    if not ctx.check(adt is not None and adt["kind"] == "enum", rule, [enum_suffix, "enum"], "enum `%s` not found" % enum_suffix):
+        return
+    by_snake = {snake(v["name"]): v["name"] for v in adt["variants"]}
+    n = 0
+    for b in prog.lib_bodies(crate):
+        if b.kind != "AssocFn" or b.arg_count != 1 or b.local_ty(0) != "bool":
+            continue
+        head, _, last = b.path.rpartition("::")
+        if not head.endswith(enum_suffix) or not last.startswith("is_") or last[3:] not in by_snake:
+            continue
+        ctx.saw(b)
+        n += 1
+        want = by_snake[last[3:]]
+        t = variant_table(prog, b, crate)
+        if not ctx.check(t is not None, rule, [last, "decided-by-variant"], "cannot read `%s` as a function of the variant alone" % b.path, b.where(0)):
+            continue
+        yes = sorted(v for v, e in t.items() if e == ("int", 1))
+        odd = sorted(v for v, e in t.items() if e not in (("int", 1), ("int", 0)))
+        ctx.check(not odd and yes == [want], rule, [last, "true-exactly-for-its-variant"],
+                  "`%s` answers true for %s%s, expected exactly [%s]" % (b.path, yes, " and a non-constant for %s" % odd if odd else "", want), b.where(0))
+    ctx.anchor(rule, "is_<variant> predicates of %s" % enum_suffix, n, floor)
